@@ -586,6 +586,12 @@ def stepLine (s : DState) (line : String) : DState :=
             s.divergeK s!"kernel {c.fnName} {c.sk.toString}>{c.dk.toString} x={x}" (toString m) (toString y)
       let s := kernelPreds s c x y
       { s with kprev := some (x, y) }
+  else if cmd == "callerspare" then
+    -- a reader / writer touched the caller's backing array beyond the slice it was given
+    let s := finalizePending s
+    let detail := s!"op={t[1]?.getD ""} view={t[2]?.getD ""}"
+    let s := { s with nPred := s.nPred + 1 }
+    (s.fail "C01" "caller-backing-array-untouched" detail).fail "C15" "caller-backing-array-untouched" detail
   else if cmd == "gencrash" then
     -- the harness generator itself failed on a state the implementation produced (it relies on what
     -- the properties promise); everything up to here has been judged line by line
